@@ -136,13 +136,18 @@ def run(tier, lab):
     g = lib.tlc("MC_IdentityGen", timeout=300, constants={"NStarts": "3" if tier == "quick" else "4"})
     lib.tlc_must_pass(g, "Identity history generation")
     ck.add_tlc(g, "Identity: restart histories over 5 service sets x completed/killed x 3 initial token states")
-    uniq = list({json.dumps(s, sort_keys=True): s for s in g.scn}.values())
+    # (TLC's workers print in no fixed order: sort, so that a seed always draws the same histories)
+    uniq = [v for k, v in sorted({json.dumps(s, sort_keys=True): s for s in g.scn}.items())]
     uniq = [s for s in uniq if sum(1 for st in s["starts"] if st["completed"]) >= 1]
     n = 24 if tier == "quick" else 300
     # always include every initial token state with a plain two-start history
     halves = [s for s in uniq if any(st.get("half") for st in s["starts"])]
     pick = rng.sample(uniq, min(n, len(uniq))) + rng.sample(halves, min(n // 2, len(halves)))
     scs = [concretise(s, rng) for s in pick]
+    # ... the certificate-bearing services enabled in changing sets and orders (what one stores must never be handed to another)
+    for sets in ([["ftp"], ["smtp", "ftp"], ["ldap", "smtp", "ftp"]], [["ftp", "smtp", "ldap"], ["ldap"], ["smtp"], ["ftp"]],
+                 [["ldap", "smtp"], ["ftp", "ldap"], ["smtp", "ftp"]]):
+        scs.append({"token_file": None, "tmp_file": None, "starts": [{"enabled": e, "completed": True} for e in sets]})
     # ... and the key of every certificate-bearing service without its certificate, each on its own
     for svc in ("ftp", "smtp", "ldap"):
         scs.append({"token_file": None, "tmp_file": None, "starts": [{"enabled": [svc], "completed": False, "half": [svc]},
